@@ -416,7 +416,44 @@ def lookup_tables(b, min_arms=8):
                     contrib |= {(roles[l], i, s) for (i, s) in fl[0]}
             if contrib:
                 loop_tab = frozenset(contrib)
-    return {"arms": arms, "loop": loop_tab, "mix": sorted(mixers), "roles": {b.local_name(l) or str(l): r for l, r in roles.items()}}
+    return {"arms": arms, "loop": loop_tab, "mix": sorted(mixers), "roles": {b.local_name(l) or str(l): r for l, r in roles.items()},
+            "threshold": block_threshold(b, mixers)}
+
+
+def block_threshold(b, mixers):
+    """smallest number of remaining key bytes for which the function takes a block step: `while k.len() > 12` -> 13,
+    `while k.len() >= 12` / `chunks_exact(12)` -> 12; None when not readable"""
+    # iterator form
+    for c in b.calls:
+        if c.bb in b.live_blocks() and re.search(r"::chunks_exact$", c.name) and len(c.args) == 2 and op_const(c.args[1]) is not None:
+            return int(op_const(c.args[1]))
+    mix_bbs = {c.bb for c in b.calls if c.id in mixers and c.bb in b.live_blocks()}
+    for bb, blk in enumerate(b.blocks):
+        t = blk["t"]
+        if t["k"] != "Switch" or len(t["v"]) != 1 or bb not in b.live_blocks() or op_local(t["d"]) is None:
+            continue
+        # a loop header: the switch is reachable from one of its own successors through a mixing call
+        body_side = [tg for tg in (t["o"], t["v"][0][1]) if bb in b.reachable([tg]) and (b.reachable([tg], avoid={bb}) & mix_bbs)]
+        if not body_side:
+            continue
+        taken_on_true = (body_side[0] == t["o"])
+        defs = [st for (i, j, st) in b.stmts() if st["p"] == [op_local(t["d"])] and st["r"]["k"] == "Bin"]
+        if len(defs) != 1:
+            continue
+        r = defs[0]["r"]
+        op, (x, y) = r["op"], r["o"]
+        cx, cy = op_const(x), op_const(y)
+        if cy is not None and cx is None:
+            c = int(cy)
+            thr = {"Gt": c + 1, "Ge": c}.get(op) if taken_on_true else {"Le": c + 1, "Lt": c}.get(op)
+        elif cx is not None and cy is None:
+            c = int(cx)
+            thr = {"Lt": c + 1, "Le": c}.get(op) if taken_on_true else {"Ge": c + 1, "Gt": c}.get(op)
+        else:
+            thr = None
+        if thr is not None:
+            return thr
+    return None
 
 
 def fmt_tab(t):
@@ -436,9 +473,21 @@ def compare_tables(ctx, rule, named):
                       "trailing bytes hash differently in the two, so one of them does not compute lookup3" %
                       (n, ref_label, fmt_tab(a or ()), label, fmt_tab(c or ()), n),
                       None, sample={"case": n, ref_label: fmt_tab(a or ()), label: fmt_tab(c or ())})
-        ctx.check(ref["loop"] == tabs["loop"], rule, [label, "block-loop"],
-                  "12-byte block step of %s equals %s" % (label, ref_label),
-                  "the 12-byte block step differs: %s has {%s}, %s has {%s}" % (ref_label, fmt_tab(ref["loop"] or ()), label, fmt_tab(tabs["loop"] or ())))
+        if ref["loop"] is None or tabs["loop"] is None:
+            ctx.info("C09.R3: the block step of %s is not written as a straight-line loop body the extractor can read; block-step agreement with %s "
+                     "is not decided" % (label if tabs["loop"] is None else ref_label, ref_label if tabs["loop"] is None else label))
+        else:
+            ctx.check(ref["loop"] == tabs["loop"], rule, [label, "block-loop"],
+                      "12-byte block step of %s equals %s" % (label, ref_label),
+                      "the 12-byte block step differs: %s has {%s}, %s has {%s}" % (ref_label, fmt_tab(ref["loop"] or ()), label, fmt_tab(tabs["loop"] or ())))
+        if ref.get("threshold") is not None and tabs.get("threshold") is not None:
+            ctx.check(ref["threshold"] == tabs["threshold"], rule, [label, "block-threshold"],
+                      "both take a block step only while at least %d key bytes remain" % ref["threshold"],
+                      "%s takes a block step while at least %d key bytes remain, %s while at least %d remain: for keys whose length is a multiple of the "
+                      "block size one of them mixes the last full block in the loop and the other leaves it to the tail switch and the final mix - "
+                      "the two hashes differ for those lengths" % (ref_label, ref["threshold"], label, tabs["threshold"]))
+        else:
+            ctx.info("C09.R3: block-loop threshold of %s / %s not readable; not decided" % (ref_label, label))
         ctx.check(ref["mix"] == tabs["mix"], rule, [label, "mixers"],
                   "same mixing functions (%s)" % ", ".join(m.split("::")[-1] for m in ref["mix"]),
                   "%s mixes with %s but %s with %s" % (ref_label, ref["mix"], label, tabs["mix"]))
@@ -567,7 +616,83 @@ def returns_call_result(b, c):
     return True
 
 
+def unrebased_positions(b, prog=None):
+    """[(call, start description)]: results of position()/find() over an iterator that comes from `slice[start..]` (start not the constant 0)
+    of a slice PARAMETER, that reach the function's return value without an addition - an index into the tail handed out as an index
+    into the whole"""
+    from .lib import return_holders
+    out = []
+    hs = return_holders(b)
+    ret_sl = Slice(b, list(hs), transparent=True)
+    for c in b.calls:
+        if c.bb not in b.live_blocks() or not re.search(r"\bIterator>?::(position|rposition)$|core::slice::<impl \[T\]>::iter$.*position", c.orig_name or c.name):
+            continue
+        if not c.args or op_local(c.args[0]) is None:
+            continue
+        sl = Slice(b, [op_local(c.args[0])], transparent=True)
+        sub = [x for x in sl.calls if (re.search(r"\bIndex<.*>>?::index$", x.name) or re.search(r"\bIndex::index$", x.orig_name or "")) and len(x.args) == 2 and "RangeFrom" in (b.local_ty(op_local(x.args[1])) or "")]
+        if not sub or not (sl.args & {i for i in range(1, b.argc + 1) if re.search(r"\[u8\]|str", b.local_ty(i) or "")}):
+            continue
+        # the range start: constant 0 is harmless
+        x = sub[0]
+        rsl = Slice(b, [op_local(x.args[1])], transparent=True)
+        if not (rsl.locals - {op_local(x.args[1])}) and all(str(op_const(k)) in ("0", "None") for k in rsl.consts):
+            continue
+        # does the result reach the return without an Add?
+        if c.dest[0] not in ret_sl.locals:
+            continue
+        fwd = {c.dest[0]}
+        added = False
+        changed = True
+        while changed:
+            changed = False
+            for (i, j, st) in b.stmts():
+                r = st["r"]
+                ops = [op_local(o) for o in r.get("o", [])]
+                if any(o in fwd for o in ops) and st["p"][0] not in fwd:
+                    if r["k"] == "Bin" and r["op"] in ("Add", "AddWithOverflow", "AddUnchecked"):
+                        added = True
+                        continue
+                    fwd.add(st["p"][0])
+                    changed = True
+            for k in b.calls:
+                if any(op_local(a) in fwd for a in k.args) and k.dest and k.dest[0] not in fwd:
+                    if re.search(r"::(checked_add|wrapping_add|saturating_add)$|\bAdd>?::add$", k.name):
+                        added = True
+                        continue
+                    # a closure given to map() / and_then(): an addition inside it re-bases the value
+                    if prog is not None and re.search(r"::(map|and_then|map_or|map_or_else)$", k.name):
+                        for ch in prog.children.get(b.id, []):
+                            cb = prog.bodies[ch]
+                            if any(st["r"]["k"] == "Bin" and st["r"]["op"] in ("Add", "AddWithOverflow", "AddUnchecked") for (_i, _j, st) in cb.stmts()):
+                                added = True
+                    fwd.add(k.dest[0])
+                    changed = True
+        if (fwd & hs) and not added:
+            out.append((c, x))
+    return out
+
+
+def r5_rebased_positions(ctx, prefix="cascette_"):
+    rule = "C09.R5"
+    ctx.rule(rule, "in the accelerated search kernels a position found in a tail sub-slice is added to the tail's start before it is returned")
+    n = 0
+    for b in ctx.prog.bodies.values():
+        if not b.krate.startswith(prefix) or b.root or not b.rec.get("tf") or "Option<usize>" not in (b.local_ty(0) or ""):
+            continue
+        n += 1
+        ctx.saw(b)
+        bad = unrebased_positions(b, ctx.prog)
+        # nested closures are part of the kernel
+        ctx.check(not bad, rule, [b.id, "rebased"], "every position returned is relative to the whole haystack",
+                  "%s returns the result of position() over `haystack[start..]` as it is: that is an offset into the tail, not into the haystack, so for a "
+                  "match behind the last full vector block the accelerated search returns a different index than the portable fallback" % b.id,
+                  bad[0][0].loc() if bad else b.loc(), sample={"kernel": b.id})
+    ctx.floor(rule, n, 2, "accelerated kernels that return a position")
+
+
 def run(ctx):
+    r5_rebased_positions(ctx)
     r1_dispatch(ctx)
     r2_vector_bounds(ctx)
     r3_lookup3(ctx)
@@ -578,9 +703,14 @@ def selftest(ctx):
     r1_dispatch_selftest(ctx)
     r2_selftest(ctx)
     r3_selftest(ctx)
-    return {"must_report": ["ST.simdgate|dispatch_gate_bad", "ST.simdgate|dispatch_ungated_bad", "ST.simdgate|detect_swapped_bad",
+    from .selftest import body
+    for i in ("tail_pos_rebased_ok", "tail_pos_range_ok", "tail_pos_relative_bad"):
+        b_ = body(ctx, i)
+        hit = bool(unrebased_positions(b_, ctx.prog))
+        (ctx.bad if hit else ctx.ok)("ST.rebase", [i], "reported" if hit else "silent", b_.loc())
+    return {"must_report": ["ST.rebase|tail_pos_relative_bad", "ST.simdgate|dispatch_gate_bad", "ST.simdgate|dispatch_ungated_bad", "ST.simdgate|detect_swapped_bad",
                             "ST.vecmem|vec_load_bad", "ST.vecmem|vec_store_other_len_bad", "ST.tailtab|tail_sibling_bad"],
-            "must_not_report": ["ST.simdgate|dispatch_gate_ok", "ST.simdgate|detect_ok", "ST.vecmem|vec_load_ok", "ST.vecmem|vec_store_min_ok",
+            "must_not_report": ["ST.rebase|tail_pos_rebased_ok", "ST.rebase|tail_pos_range_ok", "ST.simdgate|dispatch_gate_ok", "ST.simdgate|detect_ok", "ST.vecmem|vec_load_ok", "ST.vecmem|vec_store_min_ok",
                                 "ST.tailtab|tail_sibling_ok"]}
 
 
